@@ -1441,7 +1441,7 @@ fn gen_ev(rng: &mut Rng, out: &mut Out) {
 /// (the `forward_interprocedural_fixpoint::Context` implementation) is used. Leaked: lives for the whole run.
 fn leak_pi() -> &'static PointerInference<'static> {
     let blocks = vec![blk("f0_b0", vec![], vec![j_return("f0_b0_j0", Expression::Var(tmp("$ret", 8)))])];
-    let project: &'static Project = Box::leak(Box::new(project_x64(program(vec![sub("f0", "fn0", blocks, None)], vec![], vec![tid("f0")]))));
+    let project: &'static Project = Box::leak(Box::new(project_x64(program(vec![sub("f0", "fn0", blocks, None)], cs_externs(), vec![tid("f0")]))));
     let graph = Box::leak(Box::new(get_program_cfg(&project.program)));
     let ar0 = Box::leak(Box::new(AnalysisResults::new(&[], graph, project)));
     let (fs, _logs) = ar0.compute_function_signatures();
@@ -1509,7 +1509,8 @@ fn enc_state(st: &PiState) -> Value {
         .iter()
         .map(|(id, obj)| {
             let cells: Vec<Value> = obj.get_mem_region().iter().map(|(off, d)| json!([off, enc_data(d)])).collect();
-            json!([pool_index(id), obj.is_unique(), cells])
+            let targets: Vec<i64> = obj.get_referenced_ids_overapproximation().iter().map(pool_index).collect();
+            json!([pool_index(id), obj.is_unique(), cells, targets])
         })
         .collect();
     json!({"regs": regs, "objs": objs})
@@ -1606,7 +1607,7 @@ fn gen_small_abs(rng: &mut Rng, size: u64) -> Value {
 
 /// directed sequences around one stack slot: write it exactly, then read / overwrite it through a pointer with
 /// several targets (a missing object, an inexact offset, a second object) and read it back exactly
-fn gen_ms_directed(rng: &mut Rng, out: &mut Out, pi: &'static PointerInference<'static>) {
+fn gen_ms_directed_case(rng: &mut Rng, out: &mut Out) -> (Value, Vec<Term<Def>>) {
     let sid = stack_id_index();
     let pool = id_pool();
     let rdi_idx = pool.iter().position(|x| *x == AbstractIdentifier::from_var(Tid::new("f0"), &var("RDI", 8))).unwrap();
@@ -1681,13 +1682,18 @@ fn gen_ms_directed(rng: &mut Rng, out: &mut Out, pi: &'static PointerInference<'
         }
     }
     out.count("gen:ms-directed");
+    (init, defs)
+}
+
+fn gen_ms(rng: &mut Rng, out: &mut Out, pi: &'static PointerInference<'static>) {
+    let (init, defs) = gen_ms_case(rng, out);
     let seed = rng.next() >> 12;
     emit_ms(out, pi, &init, &defs, seed);
 }
 
-fn gen_ms(rng: &mut Rng, out: &mut Out, pi: &'static PointerInference<'static>) {
+fn gen_ms_case(rng: &mut Rng, out: &mut Out) -> (Value, Vec<Term<Def>>) {
     if rng.chance(1, 6) {
-        return gen_ms_directed(rng, out, pi);
+        return gen_ms_directed_case(rng, out);
     }
     let sid = stack_id_index();
     let pool = id_pool();
@@ -1826,8 +1832,7 @@ fn gen_ms(rng: &mut Rng, out: &mut Out, pi: &'static PointerInference<'static>) 
             }
         }
     }
-    let seed = rng.next() >> 12;
-    emit_ms(out, pi, &init, &defs, seed);
+    (init, defs)
 }
 
 fn rng_bit(k: i64) -> bool {
@@ -2023,6 +2028,187 @@ fn return_cast(rng: &mut Rng, y: Expression, size: u64) -> Expression {
     }
 }
 
+
+// ------------------------------------------------------------------------------------------
+// PI-lite streams 5 and 6: the real `State::merge` ("mg") and `Context::update_call_stub` ("cs")
+
+fn arg_reg(name: &str) -> Arg {
+    Arg::Register { expr: e_var(name, 8), data_type: None }
+}
+
+/// the extern symbols of the harness project: none is `sscanf`, an allocation symbol or a stubbed library function
+fn cs_externs() -> Vec<ExternSymbol> {
+    vec![
+        extern_symbol("x_none", "xfn_none", vec![], vec![], false),
+        extern_symbol("x_rdi", "xfn_rdi", vec![arg_reg("RDI")], vec![arg_reg("RAX")], false),
+        extern_symbol("x_two", "xfn_two", vec![arg_reg("RSI"), arg_reg("RDX")], vec![arg_reg("RAX")], false),
+        extern_symbol(
+            "x_sub",
+            "xfn_sub",
+            vec![Arg::Register { expr: e_bin(BinOpType::IntAdd, e_var("RDI", 8), e_const(8, 8)), data_type: None }],
+            vec![],
+            false,
+        ),
+        extern_symbol(
+            "x_stack",
+            "xfn_stack",
+            vec![
+                arg_reg("RDI"),
+                Arg::Stack { address: e_bin(BinOpType::IntAdd, e_var("RSP", 8), e_const(8, 8)), size: ByteSize::new(8), data_type: None },
+            ],
+            vec![arg_reg("RAX")],
+            false,
+        ),
+    ]
+}
+
+/// the state after pushing `defs` through the real `update_def` (stops where `update_def` returns `None`)
+fn run_defs(pi: &'static PointerInference<'static>, init: &Value, defs: &[Term<Def>]) -> PiState {
+    let ctx = pi.get_context();
+    let mut st = build_state(init);
+    for d in defs {
+        match ctx.update_def(&st, d) {
+            Some(next) => st = next,
+            None => break,
+        }
+    }
+    st
+}
+
+fn defs_json(defs: &[Term<Def>]) -> Value {
+    Value::Array(defs.iter().map(|d| serde_json::to_value(&d.term).unwrap()).collect())
+}
+
+fn defs_from_json(v: &Value) -> Vec<Term<Def>> {
+    v.as_array()
+        .unwrap()
+        .iter()
+        .enumerate()
+        .map(|(i, d)| Term { tid: tid(&format!("d{}", i)), term: serde_json::from_value(d.clone()).expect("def") })
+        .collect()
+}
+
+fn eval_mg(pi: &'static PointerInference<'static>, ia: &Value, da: &[Term<Def>], ib: &Value, db: &[Term<Def>]) -> Value {
+    let (ia, ib, da, db) = (ia.clone(), ib.clone(), da.to_vec(), db.to_vec());
+    let r = catch(move || {
+        let a = run_defs(pi, &ia, &da);
+        let b = run_defs(pi, &ib, &db);
+        let ab = a.merge(&b);
+        let ba = b.merge(&a);
+        json!({"a": enc_state(&a), "b": enc_state(&b), "ab": enc_state(&ab), "ba": enc_state(&ba)})
+    });
+    match r {
+        Ok(v) => v,
+        Err(p) => Value::String(format!("panic:{}", p.replace(' ', "_"))),
+    }
+}
+
+fn emit_mg(out: &mut Out, pi: &'static PointerInference<'static>, ia: &Value, da: &[Term<Def>], ib: &Value, db: &[Term<Def>], seed: u64) {
+    let r = eval_mg(pi, ia, da, ib, db);
+    let mut nontrivial = false;
+    if r.is_string() {
+        out.count("mg:panic");
+    } else {
+        out.count("mg:merged");
+        let cells = |s: &Value| -> usize { s["objs"].as_array().unwrap().iter().map(|o| o[2].as_array().unwrap().len()).sum() };
+        let (ca, cb, cab) = (cells(&r["a"]), cells(&r["b"]), cells(&r["ab"]));
+        if ca > 0 && cb > 0 {
+            out.count("mg:both-sides-have-cells");
+        }
+        if cab > 0 {
+            out.count("mg:merged-has-cells");
+            nontrivial = true;
+        }
+        if r["a"]["objs"].as_array().unwrap().len() != r["b"]["objs"].as_array().unwrap().len() {
+            out.count("mg:object-on-one-side-only");
+        }
+    }
+    let line = json!({"q": "mg", "ia": ia, "da": defs_json(da), "ib": ib, "db": defs_json(db), "seed": seed,
+        "sid": stack_id_index(), "gid": global_id_index(), "impl": r})
+    .to_string();
+    let key = format!("{}|{}|{}|{}", ia, defs_json(da), ib, defs_json(db));
+    out.case(&line, if nontrivial { Some(&key) } else { None });
+}
+
+fn gen_mg(rng: &mut Rng, out: &mut Out, pi: &'static PointerInference<'static>) {
+    let (ia, da) = gen_ms_case(rng, out);
+    let (ib0, db) = gen_ms_case(rng, out);
+    // mostly the same start state and two different paths (a join after a branch); sometimes different start states
+    // (other register values, other objects) with the same stack identifier
+    let ib = if rng.chance(2, 3) { ia.clone() } else { ib0 };
+    // make the two paths share slots: prepend a common prefix to both sometimes
+    let (da, db) = if rng.chance(1, 3) && !da.is_empty() {
+        let k = 1 + rng.below(da.len() as u64) as usize;
+        let mut db2 = da[..k].to_vec();
+        db2.extend(db.iter().cloned());
+        (da, db2)
+    } else {
+        (da, db)
+    };
+    let seed = rng.next() >> 12;
+    emit_mg(out, pi, &ia, &da, &ib, &db, seed);
+}
+
+fn eval_cs(pi: &'static PointerInference<'static>, init: &Value, defs: &[Term<Def>], ext: &str) -> Value {
+    let (init, defs, ext) = (init.clone(), defs.to_vec(), ext.to_string());
+    let r = catch(move || {
+        let ctx = pi.get_context();
+        let st = run_defs(pi, &init, &defs);
+        let call = j_call("f0_call", &ext, Some("f0_ret"));
+        let after = match ctx.update_call_stub(&st, &call) {
+            Some(next) => enc_state(&next),
+            None => Value::Null,
+        };
+        json!({"before": enc_state(&st), "after": after})
+    });
+    match r {
+        Ok(v) => v,
+        Err(p) => Value::String(format!("panic:{}", p.replace(' ', "_"))),
+    }
+}
+
+fn emit_cs(out: &mut Out, pi: &'static PointerInference<'static>, init: &Value, defs: &[Term<Def>], ext: &str, seed: u64) {
+    let r = eval_cs(pi, init, defs, ext);
+    let mut nontrivial = false;
+    if r.is_string() {
+        out.count("cs:panic");
+    } else {
+        out.count(&format!("cs:{}", ext));
+        let cells = |s: &Value| -> usize { s["objs"].as_array().map(|a| a.iter().map(|o| o[2].as_array().unwrap().len()).sum()).unwrap_or(0) };
+        if cells(&r["before"]) > 0 {
+            nontrivial = true;
+            if cells(&r["after"]) < cells(&r["before"]) {
+                out.count("cs:cells-cleared");
+            } else {
+                out.count("cs:cells-kept");
+            }
+        }
+    }
+    let sym = cs_externs().into_iter().find(|e| e.tid == tid(ext)).expect("extern symbol");
+    let line = json!({"q": "cs", "init": init, "defs": defs_json(defs), "ext": ext, "symbol": serde_json::to_value(&sym).unwrap(),
+        "cconv": serde_json::to_value(&cconv_x64()).unwrap(), "sp": ["RSP", 8], "seed": seed,
+        "sid": stack_id_index(), "gid": global_id_index(), "impl": r})
+    .to_string();
+    let key = format!("{}|{}|{}", init, defs_json(defs), ext);
+    out.case(&line, if nontrivial { Some(&key) } else { None });
+}
+
+fn gen_cs(rng: &mut Rng, out: &mut Out, pi: &'static PointerInference<'static>) {
+    let (init, mut defs) = gen_ms_case(rng, out);
+    // parameter registers that point into the stack frame / hold a pointer loaded from it
+    for (i, reg) in ["RDI", "RSI", "RDX"].iter().enumerate() {
+        match rng.below(6) {
+            0 | 1 => defs.push(d_assign(&format!("p{}", i), var(reg, 8), e_bin(BinOpType::IntAdd, e_var("RSP", 8), e_const((8 * rng.range(0, 4)) as u64, 8)))),
+            2 => defs.push(d_load(&format!("p{}", i), var(reg, 8), e_bin(BinOpType::IntAdd, e_var("RSP", 8), e_const((8 * rng.range(0, 3)) as u64, 8)))),
+            3 => defs.push(d_assign(&format!("p{}", i), var(reg, 8), e_var("RBX", 8))),
+            _ => {}
+        }
+    }
+    let ext = *rng.pick(&["x_none", "x_none", "x_rdi", "x_two", "x_sub", "x_stack"]);
+    let seed = rng.next() >> 12;
+    emit_cs(out, pi, &init, &defs, ext, seed);
+}
+
 fn main() {
     quiet_panics();
     let args = Args::parse();
@@ -2048,7 +2234,11 @@ fn main() {
     if let Some(lines) = args.replay_lines() {
         for line in lines {
             let v: Value = serde_json::from_str(&line).expect("replay line");
-            if v["q"] == "ms" {
+            if v["q"] == "mg" {
+                emit_mg(&mut out, pi, &v["ia"], &defs_from_json(&v["da"]), &v["ib"], &defs_from_json(&v["db"]), v["seed"].as_u64().unwrap_or(1));
+            } else if v["q"] == "cs" {
+                emit_cs(&mut out, pi, &v["init"], &defs_from_json(&v["defs"]), v["ext"].as_str().unwrap(), v["seed"].as_u64().unwrap_or(1));
+            } else if v["q"] == "ms" {
                 let defs: Vec<Term<Def>> = v["defs"]
                     .as_array()
                     .unwrap()
@@ -2116,6 +2306,14 @@ fn main() {
     let n_sc = args.num("conds", 4000, 120000);
     for _ in 0..n_sc {
         gen_sc(&mut rng, &mut out, pi);
+    }
+    let n_mg = args.num("merges", 2000, 60000);
+    for _ in 0..n_mg {
+        gen_mg(&mut rng, &mut out, pi);
+    }
+    let n_cs = args.num("calls", 1500, 40000);
+    for _ in 0..n_cs {
+        gen_cs(&mut rng, &mut out, pi);
     }
     out.finish();
 }
